@@ -10,7 +10,7 @@
    - The SI.__sub__ modelled here is the REPAIRED one (same guard as
      SI.__add__); [si_sub_pinned] keeps the pinned behaviour for the refutation.
    Executable definitions only. *)
-From Coq Require Import ZArith List Bool String Ascii PrimFloat.
+From Coq Require Import ZArith List Bool String Ascii PrimFloat Uint63 FloatOps SpecFloat.
 From PV Require Import Units.Tables Units.SIString.
 Import ListNotations.
 Local Open Scope string_scope.
@@ -40,6 +40,53 @@ Definition float_ops : numops :=
   mkNum float PrimFloat.add PrimFloat.sub PrimFloat.mul PrimFloat.div PrimFloat.opp PrimFloat.abs
         PrimFloat.eqb PrimFloat.ltb PrimFloat.leb (fun x => PrimFloat.eqb x 0%float) float_same
         (fun f _ _ => f).
+
+(* ---------- the integer roundings math.floor / math.ceil / math.trunc / round ----------
+   They are external to units.py: a structure of their own.  Each maps a number to the INT Python returns,
+   read back as a number (the code multiplies it with a unit factor), or raises. *)
+Inductive roundkind := RFloor | RCeil | RTrunc | RRound.
+Record mathops (N : numops) := mkMath {
+  m_floor : num N -> result (num N);
+  m_ceil : num N -> result (num N);
+  m_trunc : num N -> result (num N);
+  m_round : num N -> result (num N)
+}.
+Definition round_with {N : numops} (X : mathops N) (k : roundkind) : num N -> result (num N) :=
+  match k with RFloor => m_floor N X | RCeil => m_ceil N X | RTrunc => m_trunc N X | RRound => m_round N X end.
+
+(* binary64 instance (executed only).  The int result is exact; int 0 read back is +0.0; a finite float with a
+   non-negative binary exponent is integral already; nan raises ValueError, an infinity OverflowError (outside
+   the model's exceptions). *)
+Definition float_of_small_Z (z : Z) : float :=
+  if (z <? 0)%Z then PrimFloat.opp (PrimFloat.of_uint63 (Uint63.of_Z (- z))) else PrimFloat.of_uint63 (Uint63.of_Z z).
+
+Definition float_int_round (k : roundkind) (x : float) : result float :=
+  match Prim2SF x with
+  | S754_zero _ => Val 0%float
+  | S754_nan => Raise ValueError
+  | S754_infinity _ => Raise Unmodelled
+  | S754_finite s m e =>
+      if (0 <=? e)%Z then Val x
+      else
+        let d := Z.pow 2 (- e) in
+        let q := (Zpos m / d)%Z in
+        let r := (Zpos m mod d)%Z in
+        let up := negb (r =? 0)%Z in
+        let n := match k with
+                 | RTrunc => q
+                 | RFloor => if s then (if up then q + 1 else q)%Z else q
+                 | RCeil => if s then q else (if up then q + 1 else q)%Z
+                 | RRound => match Z.compare (2 * r) d with
+                             | Gt => (q + 1)%Z
+                             | Lt => q
+                             | Eq => if Z.even q then q else (q + 1)%Z
+                             end
+                 end in
+        Val (float_of_small_Z (if s then (- n)%Z else n))
+  end.
+
+Definition float_math : mathops float_ops :=
+  mkMath float_ops (float_int_round RFloor) (float_int_round RCeil) (float_int_round RTrunc) (float_int_round RRound).
 
 Section Model.
 Variable N : numops.
@@ -383,6 +430,28 @@ Definition as_unit (x : pyval) (newunit : string) : result pyval :=
   | _ => Raise Unmodelled
   end.
 
+(* math.floor(q), math.ceil(q), math.trunc(q), round(q):
+   Quantity: type(self)(<rounding>(self.displayvalue), self._unit) -- the rounding acts on the display value
+   and the unit is kept;  SI: self._val(<rounding>(float(self))) *)
+Definition q_round (X : mathops N) (k : roundkind) (c : nat) (a : num) (u : string) : result pyval :=
+  match displayvalue (VNamed c a u) with
+  | Raise e => Raise e
+  | Val d => match round_with X k d with
+             | Raise e => Raise e
+             | Val r => mk c (VNum r) (Some u)
+             end
+  end.
+
+Definition si_round (X : mathops N) (k : roundkind) (sg : list Z) (a : num) : result pyval :=
+  match round_with X k a with Raise e => Raise e | Val r => Val (VSI sg r) end.
+
+Definition round_eval (X : mathops N) (k : roundkind) (x : pyval) : R :=
+  match x with
+  | VNamed c a u => lift (q_round X k c a u)
+  | VSI sg a => lift (si_round X k sg a)
+  | _ => Raise Unmodelled
+  end.
+
 (* si.as_quantity(target): target is a quantity class of the module, or some other class *)
 Definition as_quantity (x : pyval) (target : option nat) : result pyval :=
   match x with
@@ -521,6 +590,13 @@ Fixpoint mismatches_from (i : nat) (cases : list (call * R)) : list nat :=
   match cases with
   | [] => []
   | (k, o) :: r => if case_ok k o then mismatches_from (S i) r else i :: mismatches_from (S i) r
+  end.
+
+Fixpoint round_mismatches_from (X : mathops N) (i : nat) (cases : list (roundkind * pyval * R)) : list nat :=
+  match cases with
+  | [] => []
+  | (k, x, o) :: r =>
+      if R_eqb (round_eval X k x) o then round_mismatches_from X (S i) r else i :: round_mismatches_from X (S i) r
   end.
 
 (* ---------- observation functions used by the statements of the theorems ---------- *)
